@@ -60,6 +60,21 @@ PROPS = {
         "rule": 'programs = 1..3 components, each setup and each iteration function in {pass, Fail, FailNow, panic}: 16+256+4096 = 4368 programs, two iterations each, through the real ActiveScenario.Setup/Run; distinct = (components, first stopping setup, first stopping iteration function)',
         "assumptions": E2_ASSUME,
     },
+    "C11": {
+        "parts": [{"harness": "c11", "budget": {"quick": 30, "thorough": 600}, "shards": {"quick": 4, "thorough": 'ncpu'}}],
+        "rule": 'configs = volume {0,1,7,100,1000,86400} x (repeat,frequency) {(1m,1s),(1m,30s),(10m,10s),(1h,1m),(24h,1m: thorough only)} x peak {0,R/4,R/2,14R/24,R-f} x stddev {f,3f,R/10,R/4,R,10R} x weights {none,[1],[1,2],[2,1,.5],[0,1],seven 1s}, every tick of len(weights) consecutive windows; distinct = (ticks, peak, sigma/R, weights, volume>0) classes',
+        "assumptions": E2_ASSUME + ['floating-point values other than those of the grid are outside; weights are non-negative with positive mean'],
+    },
+    "C14": {
+        "parts": [{"harness": "c14", "budget": {"quick": 60, "thorough": 1200}, "shards": {"quick": 4, "thorough": 'ncpu'}}],
+        "rule": 'rate strings: all strings of length <=5 (thorough 6) over {0,1,5,/,s,m,h,.,-,+,space}; stages strings: all strings of length <=5 (thorough 6) over {1,0,s,m,:,comma,space,-,x}; CLI: per mode the product of each flag over {default, valid, 0, negative, malformed}, each run through the real cobra command in virtual time; YAML: per mode every field in stage / default only / absent (3^k patterns), numeric fields valid/0/negative, limits present/absent/non-positive, each accepted plan run; bytes: all documents of length <=2 (thorough 3) over 25 YAML-significant symbols plus the complete one-edit neighbourhood of a valid config; distinct = (accepted value | rejected) classes',
+        "assumptions": E2_ASSUME + ['accepted inputs are driven on the default schedule only (one execution each)', 'strings longer than the bound and YAML documents other than the enumerated ones are outside'],
+    },
+    "C19": {
+        "parts": [{"harness": "c19", "budget": {"quick": 30, "thorough": 120}, "shards": {"quick": 4, "thorough": 'ncpu'}}],
+        "rule": 'cases = counts {0,1,2,10,1000}^3 x duration statistics {0,1ns,1ms,1h} x elapsed {0,400ms,1s,90s} x error {nil, plain, one containing template syntax, percent and a newline} x verdict x log path x {plain, colour} template, plus the structured-log form; progress lines for the same counts x period; run.Result-level: counts {0,1,3}^3 x error x rate; distinct = (zero pattern, error, verdict)',
+        "assumptions": E2_ASSUME,
+    },
     "C18": {
         "parts": [{"harness": "c18", "budget": {"quick": 30, "thorough": 300}, "shards": {"quick": 1, "thorough": 1}}],
         "rule": "one execution = one complete interleaving + timer order of the scenario (schedule list x function duration x Restart/Stop/cancel script); distinct = distinct outcome signatures (status, violations, ordered event log)",
@@ -101,6 +116,15 @@ LEVELS = {
             "note": 'Trusted base: the reference model in the harness, the Go compiler. Values outside the stated alphabet are not explored.'},
     "C20": {"engine": "enum", "technique": 'exhaustive enumeration of all 4368 component-behaviour programs against a list-based reference of the expected call sequence',
             "text": "Every program is run through f1.CombineScenarios and the real ActiveScenario: the observed call sequence (with the handle each call received) must equal the reference sequence - setups once each in order on one handle, stopping at the first FailNow/panic; per iteration the functions in order with that iteration's handle, later ones skipped after a FailNow/panic in that iteration only - and setup / iteration verdicts must match.",
+            "note": 'Trusted base: the reference model in the harness, the Go compiler. Values outside the stated alphabet are not explored.'},
+    "C11": {"engine": "enum", "technique": "bounded-exhaustive enumeration of a parameter grid, every tick of every window, against the carry invariant (via a x10^6 shadow calculator) and a discretisation bracket computed from the harness's own pdf/cdf",
+            "text": "Every configuration of the grid is evaluated tick by tick over as many windows as there are weights: the cumulative requests equal the floor of the cumulative real-valued rates at every tick (fractions carried, not lost), each window's total lies inside the bracket that the tick frequency's discretisation allows around volume x weight / mean weight, values are never negative and no tick exceeds the tick at the peak by more than one.",
+            "note": 'Trusted base: the reference model in the harness, the Go compiler. Values outside the stated alphabet are not explored.'},
+    "C14": {"engine": "enum", "technique": 'bounded-exhaustive enumeration of all strings up to a length bound and of flag / YAML field products against an independent parser of the documented grammar; accepted inputs are driven through the real CLI on the default virtual-time schedule',
+            "text": 'No input may panic; an error must come before setup runs; an accepted input must have a positive tick interval and at least one worker and its run must neither crash nor hang; where the documented grammar N/<duration> defines a meaning the accepted value must equal it. Strings the code accepts but the grammar gives no meaning to are counted, not violations.',
+            "note": 'Trusted base: the reference model in the harness, the Go compiler. Values outside the stated alphabet are not explored.'},
+    "C19": {"engine": "enum", "technique": 'bounded-exhaustive enumeration of result / progress data over a small alphabet; the rendered text and the structured log record are parsed back and compared with the data',
+            "text": 'Every combination is rendered with both templates and logged through a JSON slog handler; counts, the started line, each percentage (= 100 x count / all iterations to two decimals), the banner and the error text are parsed back and must equal the data; rendering must not panic; and the data run.Result hands to the views must equal its snapshot.',
             "note": 'Trusted base: the reference model in the harness, the Go compiler. Values outside the stated alphabet are not explored.'},
     "C18": {"engine": "vrt", "technique": "stateless model checking of the real raterun.Runner under a controlled scheduler with virtual time: all interleavings, select choices and same-instant timer orders up to a deviation bound",
             "text": "The real Runner runs in virtual time against scripted Restart/Stop/cancel sequences; every interleaving of the runner goroutine with the driver, every select choice among ready cases and every order of same-instant timers is executed (deviation bound per scenario in the evidence) and the ordered event log is checked: rate per schedule activation, argument, nothing executing or invoked after Stop returned, no thread or timer left.",
